@@ -575,6 +575,14 @@ def parameters_changed_after_use_bounded_instance():
         second = np.array(target.log_pdf(y))
         fresh = np.array(cls(**{k: v.copy() for k, v in p1.items()}).log_pdf(y))
         res = {'first': first, 'second': second, 'fresh': fresh}
+        if fam in ('watson', 'vmf'):
+            # parameters of any numeric element type (a hand-built or loaded model with integer concentrations, or single precision)
+            k_int = rng.randint(1, 60, size=lead).astype(np.int64)          # (the default integer type; small integer types select scipy's single-precision loops)
+            pi_ = dict(p1)
+            pi_['concentration'] = k_int
+            pf_ = dict(p1)
+            pf_['concentration'] = k_int.astype(np.float64)
+            res['int_params'] = (np.array(cls(**pi_).log_pdf(y)), np.array(cls(**pf_).log_pdf(y)))
         if inp['how'] == 'copy':
             res['original_again'] = np.array(obj.log_pdf(y))
         return res
@@ -582,6 +590,9 @@ def parameters_changed_after_use_bounded_instance():
     def ensures(sp, inp, out):
         yield 'evaluates-at-the-parameters-stored-now[%s,%s]' % (inp['family'], inp['how']), bool(np.allclose(out['second'], out['fresh'], rtol=1e-9, atol=1e-9))
         yield 'finite', bool(np.all(np.isfinite(out['second'])))
+        if 'int_params' in out:
+            a, b = out['int_params']
+            yield 'integer-typed-concentration-evaluates-like-its-float-value[%s]' % inp['family'], bool(np.allclose(a, b, rtol=1e-9, atol=1e-9))
         if 'original_again' in out:
             yield 'original-of-a-copy-unchanged[%s]' % inp['family'], bool(np.allclose(out['original_again'], out['first'], rtol=1e-12, atol=1e-12))
 
